@@ -243,7 +243,7 @@ class InterpretedFunctionsRemover(engines.engine.Engine, CompilerMixin):
                 if_known[ifun] = []
             if ifun not in new_fluents:
                 f_name = get_fresh_name(new_problem, f"_f_{ifun.name}")
-                f = Fluent(f_name, ifun.return_type, p=kNum)
+                f = Fluent(f_name, ifun.return_type, environment=env, p=kNum)
                 new_fluents[ifun] = f
                 default_value = self._default_value_given_type(
                     ifun.return_type, problem
@@ -258,7 +258,9 @@ class InterpretedFunctionsRemover(engines.engine.Engine, CompilerMixin):
             if val in new_obj_vals[ifun_exp.interpreted_function()]:
                 o = new_obj_vals[ifun_exp.interpreted_function()][val]
             else:
-                o = Object(get_fresh_name(new_problem, f"_o_{kNum.name}"), kNum)
+                o = Object(
+                    get_fresh_name(new_problem, f"_o_{kNum.name}"), kNum, env
+                )
                 new_obj_vals[ifun_exp.interpreted_function()][val] = o
                 new_problem.add_object(o)
 
@@ -274,7 +276,9 @@ class InterpretedFunctionsRemover(engines.engine.Engine, CompilerMixin):
         changing_fluents = self._find_changing_fluents(problem)
         for f in changing_fluents:
             new_f_name = get_fresh_name(new_problem, f"_{f.name}_is_unknown")
-            new_f = Fluent(new_f_name, env.type_manager.BoolType())
+            new_f = Fluent(
+                new_f_name, env.type_manager.BoolType(), environment=env
+            )
             new_problem.add_fluent(new_f, default_initial_value=False)
             new_problem.set_initial_value(new_f, em.FALSE())
             is_unknown_fluents[f] = new_f
@@ -442,7 +446,9 @@ class InterpretedFunctionsRemover(engines.engine.Engine, CompilerMixin):
                                 p_n = get_fresh_parameter_name(
                                     a, f"_p_{ifun.name}_" + str(i)
                                 )
-                                new_param = up.model.Parameter(p_n, kNum)
+                                new_param = up.model.Parameter(
+                                    p_n, kNum, a.environment
+                                )
                                 new_params.append(new_param)
                                 IF_and_pars_and_timestamp_to_knum[
                                     (ifun, ifun_exp.args, t)
@@ -459,7 +465,9 @@ class InterpretedFunctionsRemover(engines.engine.Engine, CompilerMixin):
                                 p_n = get_fresh_parameter_name(
                                     a, f"_p_{ifun.name}_" + str(i)
                                 )
-                                new_param = up.model.Parameter(p_n, kNum)
+                                new_param = up.model.Parameter(
+                                    p_n, kNum, a.environment
+                                )
                                 new_params.append(new_param)
                                 IF_and_pars_to_knum[(ifun, ifun_exp.args)] = new_param
                             else:
